@@ -43,7 +43,10 @@ IsDigit(b) == 48 <= b /\ b <= 57
    consuming but Go's float token (fmt.Fscanf, used by iolib.go) consumes
    before failing - a known divergence in the cursor after a FAILED read("*n")
    (one byte further), not repairable without replacing Fscanf: histories
-   whose "*n" fails on one of those bytes are not generated *)
+   whose "*n" fails on one of those bytes are not generated.  Undecided for the
+   same reason: Go-only numeral syntax inside a numeral ("1_000", "0x10", "0b1"):
+   fscanf reads 1 and stops before "_", Go reads 1000; Legal requires a numeral
+   to be digits delimited by white space, so such input is never generated *)
 NumStartable(b) == IsDigit(b) \/ b \in {43, 45, 46, 78, 110, 73, 105} \/ b \in {69, 101, 80, 112, 95}
 
 (* a count that is negative or does not fit 32 bits is given by name in the
@@ -62,6 +65,12 @@ NormOp(o) ==
    the extra field fs = <<fmt, ..>>, fmt = <<"c", n>> (count) | <<"l", 0>>
    ("*l") | <<"n", 0>> ("*n") | <<"a", 0>> ("*a"); FmtOp is the single read a
    format stands for *)
+(* Lua 5.1 looks only at the first character after the "*": "*line" = "*l",
+   "*all" = "*a", "*number" = "*n".  The long spelling is a call form: field
+   a = "long" of readline / readall / readnum, second component 1 of a format
+   (<<"l", 1>>); the meaning is that of the short one.  Likewise a kept lines()
+   iterator ignores its arguments (the file is an upvalue): calliter with
+   a = "arg" passes another open handle and means the same as calliter. *)
 FmtOp(f) ==
     CASE f[1] = "c" -> [op |-> "read", a |-> "", n |-> f[2]]
       [] f[1] = "l" -> [op |-> "readline", a |-> "", n |-> 0]
